@@ -158,9 +158,8 @@ func (o *OracleC03) After(x *Exec, op *Op, res *Res) {
 				x.Fail("C03", "negative", "asset %s share total negative: %s", denom, a.TotalValidatorShares)
 			}
 		}
-		if a.TotalTokens.IsNegative() {
-			x.Fail("C03", "negative", "asset %s staked total negative: %s", denom, a.TotalTokens)
-		}
+		// (a negative staked TOTAL is not a share quantity: it is judged by C01 — custody falls short
+		// of what is owed — and classified there)
 		tot := math.LegacyZeroDec()
 		for _, v := range s.Vals {
 			if sh, ok := v.ValShares[denom]; ok {
